@@ -22,7 +22,7 @@ CLAIMED = {
         text="Seeded per-attempt outcome sequences over option extremes (tries up to 100, timeouts 1 ms..INT_MAX, maxtimeout below the 250 ms floor), dead servers, list edits in flight. Transmissions per wire query are counted at the virtual network against servers x tries + 5; every attempt's wait is checked against the sound envelope (floor, configured maximum, 5000*2^round); termination within a step budget once faults stop; UBSan for the arithmetic.",
         ref="5 C06", tech=TECH + "counting at the virtual network + envelope oracle on white-box read of per-attempt deadlines + UBSan", note=NOTE_COMMON + " Per-attempt deadlines are read (never written) through sim/peek.c."),
     'C07': dict(
-        text="Mode A part (application-driven loop): after every step the ares_timeout() hint is compared with the earliest deadline in the channel (white-box read) for NULL/zero/random maxtv; the scheduler sleeps exactly the hint, overshoots or stalls, and no expired deadline may survive a process call. The event-thread (Mode B) clause is covered by the threaded part when built; see DESIGN.md.",
+        text="Mode A part (application-driven loop): after every step the ares_timeout() hint is compared with the earliest deadline in the channel (white-box read) for NULL/zero/random maxtv; the scheduler sleeps exactly the hint, overshoots or stalls, and no expired deadline may survive a process call. Mode B part (event thread): 1..2 caller threads issue requests separated by virtual think times of 0 ms..70 s against the library's own event thread on each back end (epoll, poll, select), with connections fresh, idle-kept-open or busy and servers that answer or stay silent; all threads are real pthreads released one at a time by the seeded baton scheduler with virtual blocking and timed waits. The run may never reach scheduler quiescence (every thread asleep without deadline, nothing in flight) with a request outstanding, and once the callers are done every request must complete within its retry budget of virtual time.",
         ref="5 C07", tech=TECH + "hint-vs-deadline invariant at every loop turn under a virtual clock", note=NOTE_COMMON),
     'C08': dict(
         text="Seeded request/response/time-advance/reconfigure sequences over a small name set. A request completed without any transmission is a cache hit; its markers identify the cached response, and a reference model (key, rcode/TC filter, whole-second freshness against min(max_ttl, own TTLs or SOA minimum), flush on membership change/reinit) decides whether the hit was allowed and which TTLs it may show through record, legacy and addrinfo APIs.",
@@ -30,6 +30,9 @@ CLAIMED = {
     'C09': dict(
         text="Per-attempt server behaviour (answer, silence, SERVFAIL/NOTIMP/REFUSED, FORMERR with/without OPT, reset) is a keyed hash of (seed, server, question, attempt), with outages, recoveries and server-list edits as generated steps. A reference failover model is driven by the public server-state callback stream and the list-edit history; every first transmission of a query must go to a server the model allows (lowest failure count, list order as tie-break, or a due probe of a failed server under the configured retry chance/delay; rotate cycles), every resend after a failure must move on while another server is available, and a response that is not one of the defined failures must reset the server's count.",
         ref="5 C09", tech=TECH + "reference failover model over the recorded transmission and server-state history", note=NOTE_COMMON + " Failure counts are observed only through ares_set_server_state_callback and the wire; TCP transmissions are not judged."),
+    'C11': dict(
+        text="2..4 caller threads with seeded programs (all ten request entry points, re-entrant callbacks, ares_cancel, server-list edits, ares_reinit, sortlist/local setters, ares_queue_wait_empty with and without timeout, ares_queue_active_queries, ares_timeout, ares_dup, ares_save_options, ares_get_servers_csv, rewritten system files and injected inotify events) run against the live event thread (epoll/poll/select) and its reload thread. Every thread is a real pthread; a seeded baton scheduler (continue-with-preemption-probability, PCT-style priorities, or uniform) releases exactly one at a time at every mutex, condition, create/join, wait-call and pipe/socket operation; blocking and timeouts are virtual. The same schedules run twice: under ThreadSanitizer (c-ares instrumented, scheduler hand-off invisible to it, so it sees exactly the happens-before relation c-ares' own locks create) and under ASan/UBSan. Verdict: no race report with a c-ares frame; no quiescence with a thread waiting for a mutex (deadlock) or with an incomplete request / a waiter on an empty queue (lost wake-up); every library-created thread joined by ares_destroy; per-request ledger (exactly one callback, none after destroy) and completion within the retry budget; a successful queue wait needs an instant inside the call at which no request was outstanding.",
+        ref="5 C11", tech=TECH + "real threads under a seeded baton scheduler with ThreadSanitizer on the deterministic interleaving + deadlock/lost-wake-up detection by quiescence", note=NOTE_COMMON + " Only c-ares is TSan-instrumented; accesses inside libc interceptors and operator new/delete events of the (uninstrumented, serialised) harness are ignored, which also ignores memcpy/memset ranges issued by c-ares itself."),
     'C12': dict(
         text="Generated resolv.conf-style configuration (search lists up to the limit, ndots 0..15, duplicate and root domains, ARES_FLAG_NOSEARCH/NOALIASES, HOSTALIASES in a virtual file) and names with 0..n dots, trailing dots and lengths up to the 255-octet limit; per-candidate zone outcomes (NXDOMAIN, NODATA, SERVFAIL, timeout, answer) are a keyed hash. A reference walk produces the allowed candidate sequences (set-valued where the statement is silent); the sequence of distinct question names seen at the virtual servers and the final status/answer provenance must be one of them.",
         ref="5 C12", tech=TECH + "reference search walk compared with the question sequence recorded at the virtual network", note=NOTE_COMMON),
@@ -98,7 +101,7 @@ def main():
     na.sort(key=lambda d: d['property_id'])
     m = dict(
         version=1,
-        setup_cmd="./build.sh asan && ./build.sh plain",
+        setup_cmd="./build.sh asan && ./build.sh plain && ./build.sh tsan",
         hooks=dict(guard="CARES_VERIF_SIM", enable="cmake -DCMAKE_C_FLAGS='... -DCARES_VERIF_SIM' (done by /verif/build.sh for the asan and tsan trees under /verif/build)",
                    baseline_off_cmd="cmake --build /repo/_build -j16 && ctest --test-dir /repo/_build -j8 --timeout 900",
                    source_commits=repo_commits(), add_only=True),
